@@ -66,18 +66,19 @@ BOUNDS = {
     'quick': 'CMDRequest, wide wires (12/32/12): every stream of <= 3 commands with 1-2 digits from {0,1,9,A,F} (120 commands), every '
              'producer timing; 10 fixed long commands (up to 9 digits) each followed by <= 1 one-digit command; narrow wires (1/2/1): '
              'streams of unbounded length over 1-2 digits from {0,9,F} (closed graph). CMDResponse: vin in {0,1,0xA5,0xFEDCBA98,'
-             '0xFFFFFFFF,0x0F0F0F0F} x size 1..8, two consecutive responses (second over the whole grid), every ready pacing.',
+             '0xFFFFFFFF,0x0F0F0F0F} x size 1..8, 9, 12, two consecutive responses (second over the whole grid), every ready pacing.',
     'thorough': 'CMDRequest, wide wires: every stream of <= 3 commands with 1-2 digits from {0,1,9,A,F}; <= 4 commands with 1-2 digits from '
                 '{0,9,F} or 1 digit from {0,1,9,A,F}; <= 5 commands with 1 digit from {0,9,F}; every command with 1-3 digits from all 16 '
                 'followed by <= 1 command with 1-2 digits from {0,9,F}; every command with 1 digit from {0,9,F} followed by <= 1 command '
                 'with 1-3 digits from all 16; the 10 fixed long commands; narrow wires (1/2/1 and 2/4/2 bits): unbounded streams over '
-                '{0,1,9,A,F} x 1-2 digits. CMDResponse: 12 vin values x size 1..8, two consecutive responses. Closed loop CMDResponse -> '
+                '{0,1,9,A,F} x 1-2 digits. CMDResponse: 12 vin values x size 1..8, 9, 12, two consecutive responses. Closed loop CMDResponse -> '
                 'UARTSerializer -> UARTDeserializer -> CMDRequest (4 clocks/bit), 6 values x 4 sizes x 8 start phases.',
 }
 
 HEX = ref.HEX
 WIDTHS = {'wide': (12, 32, 12), 'narrow': (1, 2, 1), 'narrow2': (2, 4, 2)}
 LONG_COMMANDS = ['FEDCBA98!', '0000000A!', '123456789!', '7FFFFFFF!', 'I0123=', 'IFFF=', 'O00FFF?', 'O8A5?', 'K0010;', 'K100;']
+SIZES = [1, 2, 3, 4, 5, 6, 7, 8, 9, 12]       # 9 and 12: more digits than the 32-bit value has (leading zeros)
 VINS_Q = [0, 1, 0xA5, 0xFEDCBA98, 0xFFFFFFFF, 0x0F0F0F0F]
 VINS_T = VINS_Q + [0x12345678, 0x89ABCDEF, 0x80000000, 0x9, 0xA, 0x0000F000]
 
@@ -123,7 +124,7 @@ def shards(tier):
     for cmd in LONG_COMMANDS:
         out.append(_req('wide', '09F', 1, 2, first=cmd))
     for vin in (VINS_T if T else VINS_Q):
-        for size in range(1, 9):
+        for size in SIZES:
             out.append({'blk': 'resp', 'vin': vin, 'size': size, 'grid': 'T' if T else 'Q'})
     if T:
         for vin in VINS_Q:
@@ -386,7 +387,7 @@ def resp_choices(d, env):
             out += [(1, 0, vin, size), (1, 1, vin, size)]
         else:
             for v2 in (VINS_T if d['grid'] == 'T' else VINS_Q):
-                for s2 in range(1, 9):
+                for s2 in SIZES:
                     out += [(1, 0, v2, s2), (1, 1, v2, s2)]
     return out
 
@@ -471,7 +472,7 @@ def run_resp(d):
     if ex.sample_traces:
         res['samples'].append({'config': d, 'inputs(start_resp,ready,vin,size) per cycle': ex.sample_traces[-1]})
     if not ex.violations and ex.closed:
-        want = 8 * len(VINS_T if d['grid'] == 'T' else VINS_Q)
+        want = len(SIZES) * len(VINS_T if d['grid'] == 'T' else VINS_Q)
         if len(stats['responses']) != want:
             raise core.HarnessError('response shard %r started %d distinct responses, grid has %d' % (d, len(stats['responses']), want))
     return res
